@@ -27,6 +27,26 @@ const NAMES: [&str; 15] = [
     "other.b.Foo",
 ];
 
+/// second alphabet (data values): underscores, digits, letter case, names ending in List / Map /
+/// Set, names of Java boxes, one-character names
+const IMPORTS_B: [&str; 10] = [
+    "m.Device_Info", "m.TaskList", "m.KeyMap", "m.ResultSet", "m.foo", "m.Foo2", "m.URI", "m._Under", "m.A", "n.m.Void",
+];
+const DECLS_B: [&str; 3] = ["Uri", "Info", "StringList"];
+const NAMES_B: [&str; 36] = [
+    "Info", "Device_Info", "_Info", "TaskList", "List2", "KeyMap", "Map_", "ResultSet", "Set", "foo", "Foo", "FOO",
+    "Foo2", "Foo_2", "URI", "Uri", "uri", "_Under", "Under", "A", "a", "m.A", "M.A", "StringList", "Strings", "Void",
+    "VOID", "Int", "Boolean", "Object", "string", "list", "m.Void", "Task", "m.TaskList", "m.foo",
+];
+
+fn alpha(a: usize) -> (&'static [&'static str], &'static [&'static str], &'static [&'static str]) {
+    if a == 0 {
+        (&IMPORTS, &DECLS, &NAMES)
+    } else {
+        (&IMPORTS_B, &DECLS_B, &NAMES_B)
+    }
+}
+
 fn contexts(t: Ty) -> Vec<Ty> {
     vec![
         t.clone(),
@@ -53,6 +73,8 @@ fn import_sets() -> Vec<Vec<usize>> {
 }
 
 pub struct Config {
+    /// 0: the main alphabet, 1: the data-value alphabet
+    alpha: usize,
     imports: Vec<usize>,
     decls: usize,    // bitmask over DECLS
     foo_kind: usize, // 0 absent 1 interface 2 parcelable 3 enum
@@ -62,6 +84,17 @@ pub struct Config {
 
 fn support_files(c: &Config) -> Vec<ProjFile> {
     let mut v = Vec::new();
+    if c.alpha == 1 {
+        // every import of the alphabet is an item of the project (kinds rotate), or none is
+        if c.foo_kind > 0 {
+            for (i, imp) in IMPORTS_B.iter().enumerate() {
+                let (pkg, name) = imp.rsplit_once('.').unwrap();
+                let kind = [ItemKind::Interface, ItemKind::Parcelable, ItemKind::Enum][(i + c.foo_kind) % 3];
+                v.push(ProjFile::from_doc(&format!("s{i}"), Document::new(pkg, Item::new(kind, name))));
+            }
+        }
+        return v;
+    }
     if c.foo_kind > 0 {
         let kind = [ItemKind::Interface, ItemKind::Parcelable, ItemKind::Enum][c.foo_kind - 1];
         v.push(ProjFile::from_doc("foo", Document::new("a.b", Item::new(kind, "Foo"))));
@@ -88,7 +121,8 @@ fn observed(c: &Config, which: usize, only: Option<(usize, usize, usize)>) -> Do
         Item::new(ItemKind::Parcelable, "Obs")
     };
     let mut k = 0;
-    for (ni, n) in NAMES.iter().enumerate() {
+    let (imports_a, decls_a, names_a) = alpha(c.alpha);
+    for (ni, n) in names_a.iter().enumerate() {
         for (ci, t) in contexts(leaf(n)).into_iter().enumerate() {
             let positions: &[usize] = if which == 0 { &[0, 1, 3] } else { &[2, 4] };
             for pos in positions {
@@ -110,14 +144,14 @@ fn observed(c: &Config, which: usize, only: Option<(usize, usize, usize)>) -> Do
         }
     }
     let mut d = Document::new("obs", item);
-    d.imports = c.imports.iter().map(|i| Import::new(IMPORTS[*i])).collect();
+    d.imports = c.imports.iter().map(|i| Import::new(imports_a[*i])).collect();
     // size dimension: every fourth configuration carries 20 more (unrelated) imports
     if (c.imports.iter().sum::<usize>() + c.decls + c.foo_kind) % 4 == 3 {
         for k in 0..20 {
             d.imports.insert(k % (d.imports.len() + 1), Import::new(&format!("pad.k{}.Pad{k}", k % 3)));
         }
     }
-    for (i, n) in DECLS.iter().enumerate() {
+    for (i, n) in decls_a.iter().enumerate() {
         if c.decls & (1 << i) != 0 {
             d.decls.push(Decl::new(n));
             if *n == "Bar" {
@@ -196,6 +230,7 @@ pub fn configs(tier: Tier) -> Vec<Config> {
                             continue;
                         }
                         v.push(Config {
+                            alpha: 0,
                             imports: imports.clone(),
                             decls,
                             foo_kind,
@@ -204,6 +239,29 @@ pub fn configs(tier: Tier) -> Vec<Config> {
                         });
                     }
                 }
+            }
+        }
+    }
+    // the data-value alphabet: every set of <= 2 of its 10 imports x every declaration set x
+    // project present (two kind rotations) / absent
+    let mut sets: Vec<Vec<usize>> = vec![vec![]];
+    for a in 0..IMPORTS_B.len() {
+        sets.push(vec![a]);
+        for b in (a + 1)..IMPORTS_B.len() {
+            sets.push(vec![a, b]);
+        }
+    }
+    for imports in sets {
+        for decls in 0..8 {
+            for foo_kind in 0..3 {
+                v.push(Config {
+                    alpha: 1,
+                    imports: imports.clone(),
+                    decls,
+                    foo_kind,
+                    cfoo: false,
+                    xfoo: false,
+                });
             }
         }
     }
@@ -231,7 +289,7 @@ pub fn run(tier: Tier, seed: u64) -> i32 {
             let c = &cfgs[ci];
             let label = format!(
                 "imports={:?} decls={:03b} a.b.Foo={} c.Foo={} a.b.XFoo={} observed={} history={h:?}",
-                c.imports.iter().map(|i| IMPORTS[*i]).collect::<Vec<_>>(),
+                c.imports.iter().map(|i| alpha(c.alpha).0[*i]).collect::<Vec<_>>(),
                 c.decls,
                 ["absent", "interface", "parcelable", "enum"][c.foo_kind],
                 c.cfoo,
@@ -239,7 +297,7 @@ pub fn run(tier: Tier, seed: u64) -> i32 {
                 ["interface", "parcelable"][which]
             );
             let label = if h == History::Plain && ci % 3 == 1 { format!("{label} layout=spaced") } else { label };
-            stats.nontrivial(fnv(&format!("{:?}{}{}{}{}", c.imports, c.decls, c.foo_kind, c.cfoo, c.xfoo)));
+            stats.nontrivial(fnv(&format!("{}{:?}{}{}{}{}", c.alpha, c.imports, c.decls, c.foo_kind, c.cfoo, c.xfoo)));
             let case = make_case(c, which, None, h, label);
             if i % 4001 == 0 {
                 stats.sample(json!({"label": case.label, "files": case.files.iter().map(|f| (f.0.clone(), if f.1.len() > 400 { format!("{}...", &f.1[..400]) } else { f.1.clone() })).collect::<Vec<_>>()}));
@@ -252,9 +310,9 @@ pub fn run(tier: Tier, seed: u64) -> i32 {
     eprintln!("  packed done t={:.1}s", stats.elapsed());
     // unpacked: one type reference per file
     let ucfg: Vec<usize> = if tier == Tier::Quick {
-        (0..cfgs.len()).filter(|i| i % 300 == 7).collect()
+        (0..cfgs.len()).filter(|i| i % 300 == 7 && cfgs[*i].alpha == 0).collect()
     } else {
-        (0..cfgs.len()).filter(|i| i % 20 == 7).collect()
+        (0..cfgs.len()).filter(|i| i % 20 == 7 && cfgs[*i].alpha == 0).collect()
     };
     let per = NAMES.len() * 5 * 5;
     super::drive(
